@@ -49,6 +49,19 @@ def run(P: Program, rep: Report):
                       f"SplitNameParts({label}) on an invalid name: {v}; expected a MiddlewareErrorBlock holding the entry and the InvalidNameError")
     common.exception_copy_safety(P, rep, "C13.R1")
 
+    def on_invalid(it, mw):
+        mk = lambda c, *a, **k: new_obj(it, P, "model", c, *a, **k)
+        res = []
+        for bad_name in ("bad } name", "a, b, c, d", "Trailing,"):
+            e = mk("Entry", entry_type="a", key="k", start_line=0, raw="r", fields=AList([mk("Field", key="author", value=AList(["Good Name", bad_name]), start_line=2)]))
+            try:
+                out = call(it, mw, "transform_entry", e, Unknown("lib"))
+                res.append(out.cls.name if isinstance(out, AObj) else repr(out))
+            except Raised as r:
+                res.append("raises " + r.cls_name())
+        return res
+    common.instances_are_independent(P, rep, "C13.R1", spl, on_invalid, "SplitNameParts-on-invalid-names")
+
     rep.rule("C13.R2", "every character once: the tokeniser, abstractly interpreted over a stream of character classes (backslash, "
                        "braces, comma, space, tie, upper / lower letter, digit) in product with a reference tokeniser, collects "
                        "after every character exactly the reference's words per comma section (escapes kept with their "
